@@ -197,7 +197,7 @@ def run(run, rng):
         run.ev('flat_length_lists')
         run.guard(flat_length_case(rng), check_flat, seconds=600)
     if run.shard[0] == 1 % run.shard[1]:
-        run.guard({'interrupted': True, 'seed': rng.getrandbits(32), 'n_lines': 6000, 'ngram': rng.choice([3, 4]), 'points': 16 if run.tier == 'quick' else 60}, check_interrupted, seconds=600)
+        run.guard({'interrupted': True, 'seed': rng.getrandbits(32), 'n_lines': 6000, 'ngram': rng.choice([3, 4]), 'points': 24 if run.tier == 'quick' else 72}, check_interrupted, seconds=600)
     for i in range(N[run.tier]):
         case = c11.gen_case(rng)
         case['save_sensitive'] = rng.random() < 0.3
